@@ -54,7 +54,7 @@ class Job:
 
     def __init__(self, harness, entry, defs=None, unwind=2, unwindset=None, mem=True, tier="quick",
                  mem_gb=4, timeout=None, variant="real", in_max=256, object_bits=10, extra=None,
-                 note="", ll2c_opts=None, sym="", outside=""):
+                 note="", ll2c_opts=None, sym="", outside="", cdefs=None):
         self.harness = harness
         self.entry = entry
         self.defs = dict(defs or {})
@@ -72,12 +72,13 @@ class Job:
         self.ll2c_opts = list(ll2c_opts or [])
         self.sym = sym
         self.outside = outside
+        self.cdefs = dict(cdefs or {})   # C-level shape constants, bound after translation (goto-cc -D): no clang/ll2c rerun per shape
 
     def unit_key(self):
-        return (self.harness, tuple(sorted(self.defs.items())), self.variant, tuple(self.ll2c_opts), self.in_max)
+        return (self.harness, tuple(sorted(self.defs.items())), self.variant, tuple(self.ll2c_opts))
 
     def shape(self):
-        return ",".join("%s=%s" % kv for kv in sorted(self.defs.items()))
+        return ",".join("%s=%s" % kv for kv in sorted(list(self.defs.items()) + list(self.cdefs.items())))
 
     def name(self):
         s = self.shape()
@@ -178,23 +179,37 @@ class Ctx:
                 r = subprocess.run(cmd, stdout=f, stderr=subprocess.PIPE, text=True)
             if r.returncode != 0:
                 raise RuntimeError("ll2c failed on %s: %s" % (job.name(), r.stderr[-3000:]))
-            unit_c = os.path.join(d, "unit.c")
-            with open(unit_c, "w") as f:
-                f.write(open(gen).read())
-                f.write("\n#line 1 \"vp_env_cbmc.c\"\n")
-                f.write(open(os.path.join(RT, "vp_env_cbmc.c")).read())
-            gb = os.path.join(d, "unit.gb")
-            r = sh(["goto-cc", "-I" + RT, "-DVP_CBMC_BUILD", "-DVP_IN_MAX=%d" % job.in_max, "-o", gb, unit_c])
-            if r.returncode != 0:
-                raise RuntimeError("goto-cc failed on %s:\n%s" % (job.name(), (r.stdout + r.stderr)[-4000:]))
             fj = json.load(open(funcs))
-            u = {"dir": d, "gb": gb, "funcs": fj, "loops": None}
+            u = {"dir": d, "gen": gen, "funcs": fj, "loops": None, "gbs": {}}
             self.units[key] = u
             return u
 
+    def goto_binary(self, job, u):
+        """the goto binary for this job's C-level constants (cdefs) and input budget"""
+        ck = (tuple(sorted(job.cdefs.items())), job.in_max)
+        with self.lock:
+            lk = self.unit_locks.setdefault((id(u), ck), threading.Lock())
+        with lk:
+            if ck in u["gbs"]:
+                return u["gbs"][ck]
+            h = hashlib.sha1(repr(ck).encode()).hexdigest()[:10]
+            unit_c = os.path.join(u["dir"], "unit.c")
+            if not os.path.exists(unit_c):
+                with open(unit_c, "w") as f:
+                    f.write(open(u["gen"]).read())
+                    f.write("\n#line 1 \"vp_env_cbmc.c\"\n")
+                    f.write(open(os.path.join(RT, "vp_env_cbmc.c")).read())
+            gb = os.path.join(u["dir"], "unit-%s.gb" % h)
+            cd = ["-D%s=%s" % kv for kv in sorted(job.cdefs.items())]
+            r = sh(["goto-cc", "-I" + RT, "-DVP_CBMC_BUILD", "-DVP_IN_MAX=%d" % job.in_max] + cd + ["-o", gb, unit_c])
+            if r.returncode != 0:
+                raise RuntimeError("goto-cc failed on %s:\n%s" % (job.name(), (r.stdout + r.stderr)[-4000:]))
+            u["gbs"][ck] = gb
+            return gb
+
     def loops(self, u):
         if u["loops"] is None:
-            r = sh(["cbmc", "--show-loops", "--json-ui", u["gb"]])
+            r = sh(["cbmc", "--show-loops", "--json-ui", next(iter(u["gbs"].values()))])
             loops = []
             try:
                 for el in json.loads(r.stdout):
@@ -248,8 +263,9 @@ def _limit(gb):
 
 
 def run_cbmc(ctx, job, u, trace_property=None):
+    ctx.goto_binary(job, u)
     uw = ctx.resolve_unwindset(job, u)
-    cmd = ["cbmc", u["gb"], "--function", job.entry, "--object-bits", str(job.object_bits)] + CBMC_BASE
+    cmd = ["cbmc", ctx.goto_binary(job, u), "--function", job.entry, "--object-bits", str(job.object_bits)] + CBMC_BASE
     if job.mem:
         cmd += CBMC_MEM
     cmd += ["--unwind", str(job.unwind), "--unwindset", ",".join("%s:%d" % kv for kv in sorted(uw.items()))]
@@ -374,7 +390,8 @@ def native_replay(ctx, job, input_bytes, tag):
     main = os.path.join(d, "main.cpp")
     with open(main, "w") as f:
         f.write('extern "C" void %s(); extern "C" int vp_replay_failed();\nint main(){ %s(); return vp_replay_failed(); }\n' % (job.entry, job.entry))
-    defs = ["-D%s=%s" % kv for kv in sorted(job.defs.items())]
+        f.write(open(os.path.join(RT, "vp_cdefs.h")).read())
+    defs = ["-D%s=%s" % kv for kv in sorted(list(job.defs.items()) + list(job.cdefs.items()))]
     exe = os.path.join(d, "replay")
     inc2 = inc + ["-I" + os.path.join(VERIF, "spec"), "-I" + HARNESS]
     # objects that the harness overrides (weak cut of library functions) are not an issue natively: cuts are VP_CBMC-only
@@ -466,7 +483,7 @@ def run_property(prop, tier, jobs, assumptions, level_text, keep=False, only=Non
 
     def work(i):
         job = jobs[i]
-        rec = {"job": job.name(), "harness": job.harness, "entry": job.entry, "shape": job.defs, "unwind": job.unwind,
+        rec = {"job": job.name(), "harness": job.harness, "entry": job.entry, "shape": dict(job.defs, **job.cdefs), "unwind": job.unwind,
                "symbolic": job.sym, "outside": job.outside, "variant": job.variant}
         records[i] = rec
         try:
@@ -605,7 +622,7 @@ def handle_failure(ctx, prop, job, u, res, violations, inconclusive, rec):
     tag = hashlib.sha1((job.name() + (pname or "") + desc).encode()).hexdigest()[:10]
     rpath = os.path.join(rdir, "%s-%s.json" % (job.entry, tag))
     where = "%s:%s %s" % (sl.get("file", "?"), sl.get("line", "?"), sl.get("function", "?"))
-    json.dump({"property": prop, "harness": job.harness, "entry": job.entry, "defs": job.defs, "variant": job.variant,
+    json.dump({"property": prop, "harness": job.harness, "entry": job.entry, "defs": job.defs, "cdefs": job.cdefs, "variant": job.variant,
                "in_max": job.in_max, "input_hex": inp.hex(), "cbmc_property": pname, "description": desc, "location": where,
                "native_confirmed": ok, "native_verdict": why, "native_output": (rep.get("out") or rep.get("log") or "")[-4000:]},
               open(rpath, "w"), indent=1)
@@ -619,7 +636,7 @@ def handle_failure(ctx, prop, job, u, res, violations, inconclusive, rec):
 def replay_file(path):
     r = json.load(open(path))
     ctx = Ctx("replay", "quick")
-    job = Job(r["harness"], r["entry"], defs=r["defs"], variant=r.get("variant", "real"), in_max=r.get("in_max", 256))
+    job = Job(r["harness"], r["entry"], defs=r["defs"], cdefs=r.get("cdefs"), variant=r.get("variant", "real"), in_max=r.get("in_max", 256))
     rep = native_replay(ctx, job, bytes.fromhex(r["input_hex"]), "replay")
     ok, why = confirms(rep, r["description"])
     print(rep.get("out") or rep.get("log"))
